@@ -13,7 +13,9 @@ boundary-directed families
   fanin    several senders (NAT on some routes, multi-homed nodes, implicit binds) to one
            receiver bound to a concrete or the wildcard address; sends to unbound ports
   overflow more than 256 kB queued at a socket that does not read, then a draining reader
-  burst    > 200 ms worth of NIC queue sent at one instant (would_block), exact boundary
+  burst    > 200 ms worth of NIC queue sent at one instant (would_block), exact boundary; with DF
+           discards / unbound destinations inside the burst, with the sender moved or closed +
+           re-opened after it
 
 Every route holds at least one queue."""
 import random
@@ -103,9 +105,19 @@ LENS = [1, 10, 48, 49, 100, 472, 1000, 1472, 3000, 9000, 60000, 65535]
 def reopen(rng, sid):
     lat = rng.choice([0, 1000000, 50000000, 100000000])
     where = rng.choice(["net", "in", "out"])
+    # exact: every queue but the one carrying `lat` is infinitely fast with zero latency, so a datagram sent
+    # at t0 arrives exactly at t0 + lat and the churn instants below really are before / AT / after the arrival.
+    # Equal instants: whether the churn handler runs before or after the delivery is decided by which timer
+    # was armed first -- the churn timer armed at top before anything is sent ("first" / "top"), or one tick
+    # after the sends, when the last hop (which then carries the latency) has armed its timer: "mid" = the
+    # churn runs while the datagram is inside the last queue's second stage, "last" = after the delivery
+    exact = rng.random() < 0.35
+    order = rng.choice(["first", "mid", "last", "top"]) if exact else "top"
+    if order in ("mid", "last"): where = "in"
     nodes = [("n0", ["10.0.0.1"]), ("n1", ["10.0.1.1"])]
     if rng.random() < 0.3: nodes.append(("n2", ["10.0.2.1"]))
-    L, ext = net_cfg(rng, nodes, lat=(0, 1000), bw=(0, 100000000, 1000000), cap_p=0.1, nat_p=0.2,
+    L, ext = net_cfg(rng, nodes, lat=(0,) if exact else (0, 1000), bw=(0,) if exact else (0, 100000000, 1000000),
+                     cap_p=0.0 if exact else 0.1, nat_p=0.2,
                      net_lat=lat if where == "net" else 0, in_lat=lat if where == "in" else None,
                      out_lat=lat if where == "out" else None)
     P = Prog(rng)
@@ -129,12 +141,26 @@ def reopen(rng, sid):
     elif pre == "chain": reader(P, rng, "u0", "top", [rng.choice([10, 1500, 65536]) for _ in range(rng.choice([2, 3]))])
     elif pre == "wait": P.do("top", "u0.wait_read h%d" % P.h())
     t0 = rng.choice([0, 0, 1000, 1000000])
-    burst("top" if t0 == 0 and rng.random() < 0.5 else P.at(t0), rng.choice([1, 2, 4, 6]))
     # the churn instant: before / exactly at / just after / long after the arrival
-    t1 = t0 + rng.choice([0, lat // 2, lat, lat + 1, lat + 2000, lat + 1000000, 2 * lat + 5000000])
+    if exact: t1 = t0 + rng.choice([lat, lat, lat, lat, lat + 1, max(0, lat - 1)])
+    else: t1 = t0 + rng.choice([0, lat // 2, lat, lat + 1, lat + 2000, lat + 1000000, 2 * lat + 5000000])
+    c = P.at(t1) if order == "first" else None
+    bctx = "top" if t0 == 0 and rng.random() < 0.5 else P.at(t0)
+    burst(bctx, rng.choice([1, 2, 4, 6]))
     if rng.random() < 0.3:
         burst(P.at(max(t0, t1 - rng.choice([0, 1, 1000]))), rng.choice([1, 2]))
-    c = P.at(t1)
+    if order in ("mid", "last") and t1 > t0 + 1:
+        # armed one tick after the sends: the datagrams have crossed the zero-delay hops and wait in the last
+        # queue, whose timer (t0 + lat) is therefore older than the churn timer
+        # (a queue is two timer stages: arrival + latency, then + size/rate armed when the first fires; the
+        # helper handler below runs after the first stage's callback and arms the churn timer, for the same
+        # instant, behind the second stage's)
+        actx = P.at(t0 + 1)
+        for _ in range(2 if order == "last" else 1):          # "mid": churn between the two stages of the last queue
+            k = P.nt; P.nt += 1; h = P.h()
+            P.do(actx, "t%d.expires_at %d" % (k, t1)); P.do(actx, "t%d.wait h%d" % (k, h)); actx = "h%d" % h
+        c = actx
+    elif c is None: c = P.at(t1)
     variant = rng.choice(["reopen", "reopen", "reopen", "takeover", "move", "destroy", "open_only", "other_port", "rebind_fail", "close_only"])
     if variant == "move" and pre != "none": variant = "reopen"
     holder = "u0"
@@ -221,24 +247,53 @@ def fanin(rng, sid):
     wild = rip == nodes[0][1][0] and rng.random() < 0.3
     P.do("top", "u0.new n0"); P.do("top", "u0.open v4"); P.do("top", "u0.bind %s" % ("0.0.0.0:7000" if wild else ep(rip, 7000)))
     snd = []
+    did = rng.randrange(0, 1000); total = 0; t = 0
+    # sockets without a port of their own: `bind ip:0` or the implicit bind of the first send_to. The
+    # library hands out 2000, 2001, ... in bind order; the first send of an implicitly bound socket is
+    # issued right where the socket is declared, so that order is the declaration order. Such an
+    # endpoint is a destination too (reply-to-sender): u0 sends to it before it exists (nobody bound:
+    # discarded) and after, and the socket reads
+    eph = []          # (socket, address datagrams for it are sent to, port)
     for k, (nd, ips) in enumerate(nodes[1:] + ([nodes[0]] if rng.random() < 0.2 else [])):
         u = "u%d" % (k + 1)
         P.do("top", "%s.new %s" % (u, nd)); P.do("top", "%s.open v4" % u)
         x = rng.random()
-        if x < 0.6: P.do("top", "%s.bind %s" % (u, ep(rng.choice(ips), 7001 + k)))
-        elif x < 0.75: P.do("top", "%s.bind %s" % (u, ep(rng.choice(ips + ["0.0.0.0"]), 0)))
-        # else: bound implicitly by the first send_to
+        if x < 0.5: P.do("top", "%s.bind %s" % (u, ep(rng.choice(ips), 7001 + k)))
+        else:
+            port = 2000 + len(eph)
+            if rng.random() < 0.5:
+                did += 1
+                P.do("top", "u0.send_to %s len=%d bufs=1 id=%d" % (ep(ips[0], port), rng.choice([1, 100, 1472]), did))     # too early: nobody is bound there
+            if x < 0.7:
+                bip = rng.choice(ips + ["0.0.0.0"])
+                P.do("top", "%s.bind %s" % (u, ep(bip, 0)))
+                eph.append((u, ips[0] if bip == "0.0.0.0" else bip, port))
+            else:
+                # bound implicitly (first IPv4 address of the node, next ephemeral port) by this first send_to
+                did += 1; total += 1
+                P.do("top", "%s.send_to %s len=%d bufs=%d id=%d" % (u, ep(rip, 7000), rng.choice(LENS), rng.choice([1, 2]), did))
+                eph.append((u, ips[0], port))
+            if rng.random() < 0.7: P.do("top", "%s.local" % u)
         snd.append(u)
-    did = rng.randrange(0, 1000); total = 0; t = 0
     for _ in range(rng.choice([2, 4, 8])):
         c = "top" if rng.random() < 0.3 else P.at(t)
         t += rng.choice([0, 1000, 1000000, 30000000])
         for _ in range(rng.choice([1, 2, 5])):
             did += 1
+            if eph and rng.random() < 0.3:
+                # to an ephemeral endpoint (now and then to the port next to it, or to the node's other address)
+                (v, vip, vport) = rng.choice(eph)
+                if rng.random() < 0.15: vport += len(eph)
+                P.do(c, "%s.send_to %s len=%d bufs=%d id=%d" % (rng.choice(["u0", "u0", rng.choice(snd)]), ep(vip, vport), rng.choice(LENS), rng.choice([1, 1, 2, 4]), did))
+                continue
             dst = ep(rip, rng.choice([7000, 7000, 7000, 7000, 7099]))
             if rng.random() < 0.05: dst = ep("10.0.0.9", 7000)
             P.do(c, "%s.send_to %s len=%d bufs=%d id=%d" % (rng.choice(snd), dst, rng.choice(LENS + [0, 65536]), rng.choice([1, 1, 2, 4]), did))
             total += 1
+    for (v, vip, vport) in eph:
+        if rng.random() < 0.8:
+            reader(P, rng, v, "top" if rng.random() < 0.6 else P.at(rng.choice([1000, 25000000, 100000000])),
+                   [rng.choice([1, 10, 48, 100, 1500, 65536, 65536]) for _ in range(rng.choice([1, 2, 4, 6]))])
     nrd = rng.choice([total + 1, total + 2, max(1, total // 2)])
     reader(P, rng, "u0", "top" if rng.random() < 0.6 else P.at(rng.choice([1000, 25000000, 100000000])),
            [rng.choice([1, 10, 48, 49, 100, 1500, 65536, 65536]) for _ in range(nrd)])
@@ -296,19 +351,38 @@ def burst(rng, sid):
     t0 = rng.choice([0, 1000000])
     c = "top" if t0 == 0 else P.at(t0)
     did = 0
-    for _ in range(305):
-        did += 1; P.do(c, "u0.send_to 10.0.1.1:7001 len=65535 bufs=1 id=%d" % did)
-    fill = 20000000 - 305 * 65563 - 28            # payload length that makes the horizon exactly 200 ms
     k = "".join(ch for ch in sid if ch.isdigit())
+    # shape: plain / don't-fragment discards and unbound destinations interleaved in the burst (they must not
+    # consume NIC time) / the socket moved to another object / closed, re-opened and re-bound right after the
+    # burst (the later sends come from the new object / the new generation)
+    shape = ["plain", "df", "move", "reopen"][(int(k) // 3) % 4] if k else rng.choice(["plain", "df", "move", "reopen"])
+    if shape == "df":
+        L.append("mtu * %d" % rng.choice([1475, 9000, 60000]))
+    who = "u0"
+    for i in range(305):
+        did += 1; P.do(c, "u0.send_to 10.0.1.1:7001 len=65535 bufs=1 id=%d" % did)
+        if shape == "df" and i % 40 == 7:
+            did += 1
+            P.do(c, "u0.set_df 1")
+            P.do(c, "u0.send_to 10.0.1.1:7001 len=65535 bufs=%d id=%d" % (rng.choice([1, 2]), did))      # over the path MTU with DF: not sent
+            P.do(c, "u0.set_df 0")
+            did += 1; P.do(c, "u0.send_to 10.0.1.1:7099 len=65535 bufs=1 id=%d" % did)                      # nobody bound: not sent
+    fill = 20000000 - 305 * 65563 - 28            # payload length that makes the horizon exactly 200 ms
     off = [0, 1, -1][int(k) % 3] if k else rng.choice([-1, 0, 0, 1])
     did += 1; P.do(c, "u0.send_to 10.0.1.1:7001 len=%d bufs=2 id=%d" % (fill + off, did))
     for ln in [1, 65535, 0, 65536, 100]:
         did += 1; P.do(c, "u0.send_to %s len=%d bufs=1 id=%d" % (rng.choice(["10.0.1.1:7001", "10.0.1.1:7099"]), ln, did))
+    if shape == "move":
+        P.do(c, "u0.move u6"); who = "u6"
+        did += 1; P.do(c, "u6.send_to 10.0.1.1:7001 len=100 bufs=1 id=%d" % did)
+    elif shape == "reopen":
+        P.do(c, "u0.close"); P.do(c, "u0.open v4"); P.do(c, "u0.bind 10.0.0.1:7000")
+        did += 1; P.do(c, "u0.send_to 10.0.1.1:7001 len=100 bufs=1 id=%d" % did)
     # sends to a port nobody is bound to do not consume NIC time
     for dt in [1, 28 * 10, 1000, 1000000, 100000000, 200000000]:
         cc = P.at(t0 + dt)
         for _ in range(2):
-            did += 1; P.do(cc, "u0.send_to 10.0.1.1:7001 len=%d bufs=1 id=%d" % (rng.choice([1, 100, 65535]), did))
+            did += 1; P.do(cc, "%s.send_to 10.0.1.1:7001 len=%d bufs=1 id=%d" % (who, rng.choice([1, 100, 65535]), did))
     return finish(sid, L, P)
 
 
@@ -320,7 +394,7 @@ def base(rng, sid):
 
 FAMILIES = dict(base=base, leak=leak, reopen=reopen, sizes=sizes, fanin=fanin, overflow=overflow, burst=burst)
 
-QUICK = dict(base=500, reopen=360, sizes=160, fanin=160, overflow=24, burst=3, leak=10)
+QUICK = dict(base=500, reopen=360, sizes=160, fanin=160, overflow=24, burst=12, leak=10)
 THOROUGH = dict(base=16000, reopen=12000, sizes=6000, fanin=6000, overflow=600, burst=48, leak=400)
 
 
